@@ -221,7 +221,7 @@ def checkAuth (c : Creds) (u p : Str) : Bool :=
 
 /-- does `HTTPGroup.Register` compare the credentials of a joining member with the group's?  `false` = the code
     as it is; `true` = with hooks/C06-fix-httpgroup-credentials.patch applied -/
-def groupChecksCreds : Bool := false
+def groupChecksCreds : Bool := true
 
 /-- the part of an `HTTPGroup` that matters for credentials: the route stored in the table carries the first
     member's, each member (proxy instance) is configured with its own -/
